@@ -9,9 +9,12 @@ import (
 	"flag"
 	"fmt"
 	"os"
+	"sort"
 	"strings"
 
+	"github.com/sarchlab/akita/v4/mem/vm"
 	"github.com/sarchlab/akita/v4/sim"
+	"github.com/sarchlab/mgpusim/v4/amd/emu"
 	"github.com/sarchlab/mgpusim/v4/amd/insts"
 	"github.com/sarchlab/mgpusim/v4/amd/kernels"
 	"github.com/sarchlab/mgpusim/v4/amd/protocol"
@@ -135,8 +138,30 @@ type Case struct {
 	KernelOv int       `json:"kernel_ov,omitempty"`
 	CUs      []CUCfg   `json:"cus,omitempty"`
 	NDisp    int       `json:"ndisp,omitempty"`
+	Cap      int       `json:"cap,omitempty"` // port buffer capacity of ToCUs/ToDriver (0 = 4096)
+	Alg      string    `json:"alg,omitempty"` // round-robin (default) | greedy | partition
 	Events   []CPEvent `json:"events,omitempty"`
-	Coq      string    `json:"coq"`
+	// emu
+	NCU     int         `json:"ncu,omitempty"`
+	Actions []EmuAction `json:"actions,omitempty"`
+	Trace   []EmuObs    `json:"trace,omitempty"`
+	CUTr    [][]CUEntry `json:"cutr,omitempty"`
+	Coq     string      `json:"coq"`
+	CoqCU   []string    `json:"coqcu,omitempty"`
+}
+
+func (c *Case) alg() string {
+	if c.Alg == "" {
+		return "round-robin"
+	}
+	return c.Alg
+}
+
+func (c *Case) capOr4096() int {
+	if c.Cap > 0 {
+		return c.Cap
+	}
+	return 4096
 }
 
 type resRunner struct {
@@ -401,7 +426,7 @@ func newCPRunner(c *Case) *cpRunner {
 		b = b.WithCU(s)
 		r.cuIndex[s.Port] = i
 	}
-	r.c = b.Build("CP")
+	r.c = cp.VerifBuild(b, "CP", c.alg(), c.Cap)
 	// the public builder always creates 8 dispatchers; Dispatchers is a public field
 	if c.NDisp < len(r.c.Dispatchers) {
 		r.c.Dispatchers = r.c.Dispatchers[:c.NDisp]
@@ -557,6 +582,14 @@ func genCP(rng *vh.Rng, hostile bool) Case {
 		c.CUs = append(c.CUs, cu)
 	}
 	c.NDisp = []int{1, 1, 2, 2, 3, 4, 8}[rng.Intn(7)]
+	c.Alg = []string{"", "", "", "", "", "", "greedy", "greedy", "partition", "partition"}[rng.Intn(10)]
+	congested := rng.Intn(2) == 0 // small port buffers, the CU side retrieves rarely
+	if congested {
+		c.Cap = 1 + rng.Intn(3)
+		if c.NDisp == 1 {
+			c.NDisp = 2
+		}
+	}
 	r := newCPRunner(&c)
 	nl := 1 + rng.Intn(4)
 	var pendingLaunch []*LaunchSpec
@@ -584,7 +617,11 @@ func genCP(rng *vh.Rng, hostile bool) Case {
 		if i == 0 {
 			wl = 1000
 		}
-		switch rng.Pick(wl, wc, 10, 6, 3) {
+		wr := 6
+		if congested {
+			wr = 1
+		}
+		switch rng.Pick(wl, wc, 10, wr, 3) {
 		case 0:
 			e.E = "launch"
 			e.Launch = pendingLaunch[0]
@@ -626,6 +663,23 @@ func genCP(rng *vh.Rng, hostile bool) Case {
 		if e.Map != nil {
 			inflight = append(inflight, fl{id: e.Map.ID, launch: e.Map.Key[0]})
 		}
+		if e.Acc != nil && !*e.Acc { // refused by a full port: try again later
+			if e.E == "launch" {
+				pendingLaunch = append([]*LaunchSpec{e.Launch}, pendingLaunch...)
+			} else if !hostile {
+				for _, id := range e.IDs {
+					inflight = append(inflight, fl{id: id, launch: (id - idBase)})
+				}
+				// the launch of a re-queued id is looked up again below
+				for k := range inflight {
+					for _, ev := range c.Events {
+						if ev.Map != nil && ev.Map.ID == inflight[k].id {
+							inflight[k].launch = ev.Map.Key[0]
+						}
+					}
+				}
+			}
+		}
 		c.Events = append(c.Events, e)
 		if crashed {
 			c.Coq = cpCoq(&c)
@@ -662,6 +716,17 @@ func genCP(rng *vh.Rng, hostile bool) Case {
 				if e.Map != nil {
 					inflight = append(inflight, fl{id: e.Map.ID, launch: e.Map.Key[0]})
 				}
+				if e.E == "complete" && e.Acc != nil && !*e.Acc {
+					for _, id := range e.IDs {
+						l := uint64(0)
+						for _, ev := range c.Events {
+							if ev.Map != nil && ev.Map.ID == id {
+								l = ev.Map.Key[0]
+							}
+						}
+						inflight = append(inflight, fl{id: id, launch: l})
+					}
+				}
 				c.Events = append(c.Events, e)
 			}
 		}
@@ -672,7 +737,7 @@ func genCP(rng *vh.Rng, hostile bool) Case {
 
 func replayCP(in Case) Case {
 	c := Case{Mode: "cp", Hostile: in.Hostile, LaunchOv: in.LaunchOv, SubOv: in.SubOv, KernelOv: in.KernelOv,
-		CUs: in.CUs, NDisp: in.NDisp}
+		CUs: in.CUs, NDisp: in.NDisp, Cap: in.Cap, Alg: in.Alg}
 	r := newCPRunner(&c)
 	for _, e := range in.Events {
 		n := CPEvent{E: e.E, IDs: e.IDs}
@@ -737,8 +802,330 @@ func cpCoq(c *Case) string {
 	for i, cu := range c.CUs {
 		cus[i] = cu.coq()
 	}
-	return fmt.Sprintf("mkCCase (mkCpCfg %d %d %d 4096%%nat) %s %d%%nat [%s]", c.LaunchOv, c.SubOv, effKernelOv(c.KernelOv),
-		vh.CoqList(cus), c.NDisp, strings.Join(items, ";\n  "))
+	if c.alg() == "partition" {
+		return "" // the partition algorithm has no Coq model: monitor only
+	}
+	alg := "RoundRobin"
+	if c.alg() == "greedy" {
+		alg = "Greedy"
+	}
+	return fmt.Sprintf("mkCCase (mkCpCfg %s %d %d %d %d%%nat) %s %d%%nat [%s]", alg, c.LaunchOv, c.SubOv, effKernelOv(c.KernelOv),
+		c.capOr4096(), vh.CoqList(cus), c.NDisp, strings.Join(items, ";\n  "))
+}
+
+// ---------------------------------------------------------------- mode "emu"
+// The real CommandProcessor and real emulation compute units (stub decoder:
+// every wavefront ends at once), a hand-stepped engine and a network played
+// by the harness, so that the one-entry port from a CU to the CP can be kept
+// busy while further work-groups finish.
+
+type EmuAction struct {
+	A string `json:"a"` // launch step netmap netcomp rdrv
+	N int    `json:"n,omitempty"`
+}
+
+// EmuObs is what the whole system did (input of the property monitor).
+type EmuObs struct {
+	E      string   `json:"e"` // launch map comp rsp crash
+	Launch uint64   `json:"launch,omitempty"`
+	NWG    int      `json:"nwg,omitempty"`
+	ID     uint64   `json:"id,omitempty"`
+	CU     int      `json:"cu"`
+	IDs    []uint64 `json:"ids,omitempty"`
+}
+
+// CUEntry is one step of the abstract trace of one compute unit (input of
+// the model VCp.CuCompletion).
+type CUEntry struct {
+	E    string   `json:"e"` // deliver tick emu handle retr
+	ID   uint64   `json:"id,omitempty"`
+	Acc  bool     `json:"acc,omitempty"`
+	Msg  []uint64 `json:"msg,omitempty"`
+	None bool     `json:"none,omitempty"`
+	Head []uint64 `json:"head,omitempty"` // message waiting in the CU's outgoing port afterwards
+	HasH bool     `json:"hash,omitempty"`
+}
+
+type manualEngine struct {
+	sim.HookableBase
+	now    sim.VTimeInSec
+	events []sim.Event
+}
+
+func (e *manualEngine) CurrentTime() sim.VTimeInSec { return e.now }
+func (e *manualEngine) Schedule(evt sim.Event)      { e.events = append(e.events, evt) }
+func (e *manualEngine) Run() error                  { return nil }
+func (e *manualEngine) Pause()                      {}
+func (e *manualEngine) Continue()                   {}
+
+func (e *manualEngine) next() sim.Event {
+	if len(e.events) == 0 {
+		return nil
+	}
+	sort.SliceStable(e.events, func(i, j int) bool {
+		a, b := e.events[i], e.events[j]
+		if a.Time() != b.Time() {
+			return a.Time() < b.Time()
+		}
+		return !a.IsSecondary() && b.IsSecondary()
+	})
+	evt := e.events[0]
+	e.events = e.events[1:]
+	e.now = evt.Time()
+	return evt
+}
+
+type endpgmDecoder struct{}
+
+func (endpgmDecoder) Decode([]byte) (*insts.Inst, error) {
+	return &insts.Inst{
+		Format:   insts.FormatTable[insts.SOPP],
+		InstType: &insts.InstType{InstName: "s_endpgm", Opcode: 1},
+		ByteSize: 4,
+	}, nil
+}
+
+type nopALU struct{ lds []byte }
+
+func (*nopALU) Run(emu.InstEmuState) {}
+func (a *nopALU) SetLDS(lds []byte)  { a.lds = lds }
+func (a *nopALU) LDS() []byte        { return a.lds }
+func (*nopALU) ArchName() string     { return "GCN3" }
+
+type zeroMem struct{}
+
+func (zeroMem) Read(_ vm.PID, _, n uint64) []byte { return make([]byte, n) }
+func (zeroMem) Write(vm.PID, uint64, []byte)      {}
+
+type emuWorld struct {
+	engine   *manualEngine
+	c        *cp.CommandProcessor
+	cus      []*emu.ComputeUnit
+	cuOf     map[sim.RemotePort]int
+	mapID    map[string]uint64 // Go MapWGReq ID -> canonical
+	launchOf map[*kernels.HsaKernelDispatchPacket]uint64
+	launchID map[string]uint64
+	nLaunch  uint64
+	out      *Case
+}
+
+func newEmuWorld(ncu int, out *Case) *emuWorld {
+	w := &emuWorld{engine: &manualEngine{}, cuOf: map[sim.RemotePort]int{}, mapID: map[string]uint64{},
+		launchOf: map[*kernels.HsaKernelDispatchPacket]uint64{}, launchID: map[string]uint64{}, out: out}
+	b := cp.MakeBuilder().WithEngine(w.engine).WithFreq(1 * sim.GHz).WithConstantKernelOverhead(1)
+	conn := &vh.StubConn{}
+	for i := 0; i < ncu; i++ {
+		cu := emu.NewComputeUnit(fmt.Sprintf("CU%d", i), w.engine, endpgmDecoder{}, &nopALU{}, zeroMem{})
+		w.cus = append(w.cus, cu)
+		w.cuOf[cu.ToDispatcher.AsRemote()] = i
+		b = b.WithCU(cu)
+		conn.PlugIn(cu.ToDispatcher)
+	}
+	w.c = b.Build("CP")
+	conn.PlugIn(w.c.ToDriver)
+	conn.PlugIn(w.c.ToCUs)
+	out.CUTr = make([][]CUEntry, ncu)
+	return w
+}
+
+func (w *emuWorld) canonIDs(ids []string) []uint64 {
+	o := make([]uint64, len(ids))
+	for i, id := range ids {
+		if n, ok := w.mapID[id]; ok {
+			o[i] = n
+		} else {
+			o[i] = 999999
+		}
+	}
+	return o
+}
+
+func (w *emuWorld) cuEntry(i int, e CUEntry) {
+	if m := w.cus[i].ToDispatcher.PeekOutgoing(); m != nil {
+		e.HasH = true
+		e.Head = w.canonIDs(m.(*protocol.WGCompletionMsg).RspTo)
+	}
+	w.out.CUTr[i] = append(w.out.CUTr[i], e)
+}
+
+func (w *emuWorld) apply(a EmuAction) (crashed bool) {
+	defer func() {
+		if x := recover(); x != nil {
+			w.out.Trace = append(w.out.Trace, EmuObs{E: "crash"})
+			crashed = true
+		}
+	}()
+	switch a.A {
+	case "launch":
+		co := &insts.KernelCodeObject{KernelCodeObjectMeta: &insts.KernelCodeObjectMeta{WFSgprCount: 16, WIVgprCount: 8}}
+		p := &kernels.HsaKernelDispatchPacket{WorkgroupSizeX: 64, WorkgroupSizeY: 1, WorkgroupSizeZ: 1,
+			GridSizeX: uint32(64 * a.N), GridSizeY: 1, GridSizeZ: 1}
+		req := &protocol.LaunchKernelReq{CodeObject: co, Packet: p, PID: 1}
+		req.ID = sim.GetIDGenerator().Generate()
+		req.Src = "Driver"
+		req.Dst = w.c.ToDriver.AsRemote()
+		if w.c.ToDriver.Deliver(req) == nil {
+			w.nLaunch++
+			w.launchOf[p] = w.nLaunch
+			w.launchID[req.ID] = w.nLaunch
+			w.out.Trace = append(w.out.Trace, EmuObs{E: "launch", Launch: w.nLaunch, NWG: a.N})
+		}
+	case "step":
+		evt := w.engine.next()
+		if evt == nil {
+			break
+		}
+		cuIdx := -1
+		for i, cu := range w.cus {
+			if evt.Handler() == sim.Handler(cu) || evt.Handler() == sim.Handler(cu.TickingComponent) {
+				cuIdx = i
+			}
+		}
+		var entry CUEntry
+		if cuIdx >= 0 {
+			switch x := evt.(type) {
+			case sim.TickEvent:
+				entry = CUEntry{E: "tick"}
+			case *emu.WGCompleteEvent:
+				entry = CUEntry{E: "handle", ID: w.mapID[x.Req.ID]}
+			default:
+				entry = CUEntry{E: "emu"}
+			}
+		}
+		evt.Handler().Handle(evt)
+		if cuIdx >= 0 {
+			w.cuEntry(cuIdx, entry)
+		}
+	case "netmap":
+		m := w.c.ToCUs.PeekOutgoing()
+		if m == nil {
+			break
+		}
+		q := m.(*protocol.MapWGReq)
+		if _, ok := w.mapID[q.ID]; !ok {
+			w.mapID[q.ID] = idBase + uint64(len(w.mapID))
+		}
+		i := w.cuOf[q.Dst]
+		acc := w.cus[i].ToDispatcher.Deliver(m) == nil
+		if acc {
+			w.c.ToCUs.RetrieveOutgoing()
+			w.out.Trace = append(w.out.Trace, EmuObs{E: "map", ID: w.mapID[q.ID], CU: i, Launch: w.launchOf[q.WorkGroup.Packet]})
+		}
+		w.cuEntry(i, CUEntry{E: "deliver", ID: w.mapID[q.ID], Acc: acc})
+	case "netcomp":
+		i := a.N % len(w.cus)
+		m := w.cus[i].ToDispatcher.PeekOutgoing()
+		if m == nil {
+			w.cuEntry(i, CUEntry{E: "retr", None: true})
+			break
+		}
+		if w.c.ToCUs.Deliver(m) != nil {
+			break
+		}
+		w.cus[i].ToDispatcher.RetrieveOutgoing()
+		ids := w.canonIDs(m.(*protocol.WGCompletionMsg).RspTo)
+		w.out.Trace = append(w.out.Trace, EmuObs{E: "comp", CU: i, IDs: ids})
+		w.cuEntry(i, CUEntry{E: "retr", Msg: ids})
+	case "rdrv":
+		m := w.c.ToDriver.RetrieveOutgoing()
+		if m == nil {
+			break
+		}
+		if q, ok := m.(*protocol.LaunchKernelRsp); ok {
+			w.out.Trace = append(w.out.Trace, EmuObs{E: "rsp", Launch: w.launchID[q.RspTo]})
+		}
+	}
+	return false
+}
+
+func genEmu(rng *vh.Rng) Case {
+	c := Case{Mode: "emu", NCU: 1 + rng.Intn(2)}
+	w := newEmuWorld(c.NCU, &c)
+	nl := 2 + rng.Intn(4)
+	n := 150 + rng.Intn(250)
+	busy := false // the link from the CUs to the CP is busy: completion messages wait in the CU ports
+	for i := 0; i < n; i++ {
+		if rng.Intn(12) == 0 {
+			busy = !busy
+		}
+		if i > n*3/4 {
+			busy = false
+		}
+		wl := 0
+		if nl > 0 {
+			wl = 2
+		}
+		wc := 6
+		if busy {
+			wc = 0
+		}
+		var a EmuAction
+		switch rng.Pick(wl, 14, 8, wc, 2) {
+		case 0:
+			a = EmuAction{A: "launch", N: 1 + rng.Intn(4)}
+			nl--
+		case 1:
+			a = EmuAction{A: "step"}
+		case 2:
+			a = EmuAction{A: "netmap"}
+		case 3:
+			a = EmuAction{A: "netcomp", N: rng.Intn(c.NCU)}
+		default:
+			a = EmuAction{A: "rdrv"}
+		}
+		c.Actions = append(c.Actions, a)
+		if w.apply(a) {
+			break
+		}
+	}
+	emuCoq(&c)
+	return c
+}
+
+func replayEmu(in Case) Case {
+	c := Case{Mode: "emu", NCU: in.NCU}
+	w := newEmuWorld(c.NCU, &c)
+	for _, a := range in.Actions {
+		c.Actions = append(c.Actions, a)
+		if w.apply(a) {
+			break
+		}
+	}
+	emuCoq(&c)
+	return c
+}
+
+func emuCoq(c *Case) {
+	c.CoqCU = nil
+	for _, tr := range c.CUTr {
+		items := make([]string, len(tr))
+		for i, e := range tr {
+			var ev, ob string
+			switch e.E {
+			case "deliver":
+				ev, ob = fmt.Sprintf("CDeliver %d", e.ID), "CAcc "+vh.CoqBool(e.Acc)
+			case "tick":
+				ev, ob = "CTick", "CDone"
+			case "emu":
+				ev, ob = "CEmu", "CDone"
+			case "handle":
+				ev, ob = "CHandle", fmt.Sprintf("CHandled (Some %d)", e.ID)
+			case "retr":
+				ev = "CRetr"
+				if e.None {
+					ob = "CMsg None"
+				} else {
+					ob = "CMsg (Some " + vh.CoqNList(e.Msg) + ")"
+				}
+			}
+			h := "None"
+			if e.HasH {
+				h = "Some " + vh.CoqNList(e.Head)
+			}
+			items[i] = fmt.Sprintf("(%s, %s, %s)", ev, ob, h)
+		}
+		c.CoqCU = append(c.CoqCU, "mkECase ["+strings.Join(items, ";\n  ")+"]")
+	}
 }
 
 // ---------------------------------------------------------------- main
@@ -746,7 +1133,7 @@ func cpCoq(c *Case) string {
 func main() {
 	seed := flag.Uint64("seed", 1, "seed")
 	n := flag.Int("n", 100, "number of histories")
-	mode := flag.String("mode", "res", "res | cp")
+	mode := flag.String("mode", "res", "res | cp | emu")
 	hostileEvery := flag.Int("hostile-every", 6, "every k-th history uses the hostile stream")
 	out := flag.String("out", "", "output JSON file")
 	rep := flag.String("replay", "", "JSON file with cases to replay")
@@ -763,9 +1150,12 @@ func main() {
 			panic(err)
 		}
 		for _, c := range in {
-			if c.Mode == "cp" {
+			switch c.Mode {
+			case "cp":
 				cases = append(cases, replayCP(c))
-			} else {
+			case "emu":
+				cases = append(cases, replayEmu(c))
+			default:
 				cases = append(cases, replayRes(c))
 			}
 		}
@@ -773,9 +1163,12 @@ func main() {
 		rng := vh.NewRng(*seed)
 		for i := 0; i < *n; i++ {
 			h := *hostileEvery > 0 && i%*hostileEvery == *hostileEvery-1
-			if *mode == "cp" {
+			switch *mode {
+			case "cp":
 				cases = append(cases, genCP(rng.Fork(), h))
-			} else {
+			case "emu":
+				cases = append(cases, genEmu(rng.Fork()))
+			default:
 				cases = append(cases, genRes(rng.Fork(), h))
 			}
 		}
